@@ -181,6 +181,15 @@ def gen_forget(repo, src, out):
     return {"from_snapshots_reasons": (m.group(2), m.group(3))}
 
 def gen(repo):
+    out, meta, src = gen_base(repo)
+    out.append("")
+    gen_grouping(repo, out)
+    out.append("")
+    meta.update(gen_forget(repo, src, out))
+    return "\n".join(out) + "\n", meta
+
+def gen_base(repo):
+    """the facts about KeepOptions::matches / is_valid; returns (lines, meta, source text)"""
     src = read(repo, "crates/core/src/commands/forget.rs")
     out = ["(* GENERATED by props/C09/extract.py from crates/core/src/commands/forget.rs - do not edit *)",
            "From Verif.Base Require Import Tactics.",
@@ -230,13 +239,7 @@ def gen(repo):
         raise ExtractError("is_valid term not recognised: " + t)
     out.append("")
     out.append("Definition is_valid (k : keep) : bool :=\n  " + "\n  || ".join(ts) + ".")
-    out.append("")
-    gen_grouping(repo, out)
-    out.append("")
-    extra = gen_forget(repo, src, out)
-    meta = {"reasons": reasons}
-    meta.update(extra)
-    return "\n".join(out) + "\n", meta
+    return out, {"reasons": reasons}, src
 
 if __name__ == "__main__":
     repo = sys.argv[1] if len(sys.argv) > 1 else "/repo"
